@@ -122,6 +122,15 @@ def run(prog, tier, res):
     cmp(res, R3, MAIN, "event-filter", acc_rows, [sorted([a, v] for a, v in tb if v == "1") for tb in spec["event_filter"]], "event filter")
     # in-order append of a whole slice: extend(data[.iter()[.copied()]]) or extend_from_slice(data)
     extends = [(bb, t) for bb, t in b.calls() if short(cname(t)) in ("Extend::extend", "Vec::<T, A>::extend_from_slice")]
+    # every CBFn bank of a Chronobox event is appended: the only condition on the bank that dominates the append is that
+    # its name parses as a Chronobox bank name (no size / content test that would drop bytes of the stream)
+    if len(extends) == 1:
+        ats = []
+        for (d, rel, vals) in an.atoms_at(extends[0][0]):
+            ats += sy.atoms(d, rel, vals)
+        simp = accept.simplify(ats, sy.sym_box)
+        bank_guards = sorted(set(inside_atom(atom_str(a), ("BankView::<'a>::name(", "BankView::<'a>::data_slice("), "BANK") for a in (simp or []) if "BankView::<'a>::" in atom_str(a)))
+        cmp(res, R3, MAIN, "bank-guards", bank_guards, spec["bank_guards"], "conditions on the bank under which its data is appended")
     ok = False
     why = "no `map.entry(board).or_default().extend(data)` found"
     if len(entries) == 1 and len(extends) == 1:
@@ -308,6 +317,30 @@ def check(res, rule, ok, fn, key, what, where):
         res.hit(rule)
     else:
         res.violate(rule, fn, key, what, where)
+
+
+def inside_atom(s, keys, name):
+    """the argument inside `key(..)` renamed (balanced parentheses)"""
+    for key in keys:
+        out, i = "", 0
+        while True:
+            j = s.find(key, i)
+            if j < 0:
+                out += s[i:]
+                break
+            k, depth = j + len(key), 0
+            while k < len(s):
+                if s[k] == "(":
+                    depth += 1
+                elif s[k] == ")":
+                    if depth == 0:
+                        break
+                    depth -= 1
+                k += 1
+            out += s[i:j] + key + name
+            i = k
+        s = out
+    return s
 
 
 def event_atom(s):
